@@ -220,6 +220,21 @@ def c05_3(ctx):
         ctx.check(r_forced is not False and sym.entails(r_dele, r_forced) and not later_plain, "forkid-bit-forced:%s" % cls, ctx.where(sf),
                   "%s.solve does not hand on `requested hash type | SIGHASH_FORKID` on every path (stores: %s): the fork-id bit must be added and no other bit lost" % (cls, [norm(e.value)[:40] for e in sets]),
                   sample={"class": cls, "stores": [norm(e.value)[:40] for e in sets]})
+        # ... and no bit ADDED to a requested type besides the fork id: `requested | K` has K = 0x40 exactly (0x41 turns a requested
+        # NONE, 0x02, into SINGLE|FORKID, 0x43: the signature validates and commits to another hash type than the one asked for)
+        def or_consts(v_):
+            if isinstance(v_, ast.BinOp) and isinstance(v_.op, ast.BitOr):
+                a_, b_ = or_consts(v_.left), or_consts(v_.right)
+                return None if a_ is None or b_ is None else (a_[0] | b_[0], a_[1] or b_[1])
+            if isinstance(v_, ast.Constant) and isinstance(v_.value, int):
+                return (v_.value, False)
+            return (0, True)        # the requested value (or anything else that is not a constant)
+        for e in sets:
+            oc = or_consts(e.value)
+            if oc is not None and oc[1]:
+                ctx.check(oc[0] == 0x40, "only-the-forkid-bit-added:%s" % cls, ctx.where(sf, e.node),
+                          "%s.solve hands on `%s`: it ORs 0x%02x into the requested hash type, which adds bits besides SIGHASH_FORKID (0x40) -- a requested NONE or NONE|ANYONECANPAY is signed as another type" % (cls, norm(e.value)[:50], oc[0]),
+                          sample={"class": cls, "ored_into_the_request": "0x%02x" % oc[0]})
         c = ctx.p.cls(rel, cls)
         v = c.attrs.get("SolutionChecker")
         ctx.check(v is not None and norm(v) == cls.replace("Solver", "SolutionChecker"), "forkid-checker:%s" % cls, "%s:%d" % (rel, c.node.lineno), "%s does not validate with its coin's checker" % cls)
